@@ -27,11 +27,14 @@ META = {
     "level_note": "Speed (availability) profiles are not combined with energy: the statement does not say whether 'the used fraction of its cores' "
                   "is relative to the peak or to the available speed. The link part uses CM02, TCP-gamma 0, no cross-traffic, constant bandwidths "
                   "and links that stay on (the statement only names idle/busy powers), and judges only dates at which no message is in flight on "
-                  "the link (plus the observation-invariance differential).",
+                  "the link (plus the observation-invariance differential). Suspend / cancel / migrate are only issued on execs that cannot have "
+                  "failed or ended meanwhile (Activity::suspend() on an ended exec dereferences a null model action: not an energy matter), "
+                  "migrations only move single-threaded execs (ExecImpl::migrate restarts the exec on one core). Open findings: "
+                  "known_findings.d/C23.json. One harness process runs a chunk of cases, each in a forked child (one Engine each).",
     "rule": "case = one generated platform + scripts; non-trivial = at least one host whose power took 3 different values (or a link that "
             "carried traffic) before a judged observation; distinct by scenario content",
     "assumptions": ["tolerance: 1e-9 relative + (5 x precision/timing) x the largest power of the host (dates are snapped within 1e-9)"],
-    "ready": False,
+    "ready": True,
 }
 
 
